@@ -72,7 +72,7 @@ Let Fwl : sfair g_wl r := proj1 (proj2 (proj2 (proj2 F))).
 Let Frl : sfair g_rl r := proj1 (proj2 (proj2 (proj2 (proj2 F)))).
 Let Fuc : sfair g_uc r := proj1 (proj2 (proj2 (proj2 (proj2 (proj2 F))))).
 Let Fsd : sfair g_seldone r := proj1 (proj2 (proj2 (proj2 (proj2 (proj2 (proj2 F)))))).
-Let Fbody : sfair g_body r := proj2 (proj2 (proj2 (proj2 (proj2 (proj2 (proj2 F)))))).
+Let Fbody : sfair g_body r := proj1 (proj2 (proj2 (proj2 (proj2 (proj2 (proj2 (proj2 F))))))).
 Let Wx := sfair_fair guard eff r g_x Fx.
 Let Wwl := sfair_fair guard eff r g_wl Fwl.
 Let Wrl := sfair_fair guard eff r g_rl Frl.
@@ -120,7 +120,7 @@ Lemma sclosed_stable : stable guard eff (Inv cap) (fun s => sclosed s = true).
 Proof. stab. Qed.
 
 (* -- the read loop lets go of X's Ctx.lck: dispatchLocked does not block -- *)
-Lemma rl_release : (fun s => done s = true /\ rl_hold s = HX) ~> (fun s => rl_hold s <> HX).
+Lemma rl_release : (fun s => True /\ rl_hold s = HX) ~> (fun s => rl_hold s <> HX).
 Proof.
   apply (ensures g_rl); auto.
   - cens1.
@@ -144,20 +144,20 @@ Qed.
 
 (* -- one iteration of the write loop ends -- *)
 Definition pcw (p : wl_pc) : nat :=
-  match p with LAcq => 4 | LLockB _ => 3 | LWrite _ => 2 | LRefill | LSelfOut => 1 | _ => 0 end.
+  match p with LAcq => 4 | LLockB _ => 3 | LWrite _ => 2 | LRefill => 1 | _ => 0 end.
 Definition wm (s : state) : nat :=
   6 * bud s + pcw (wl s) + match xloc s with XWl => 1 | _ => 0 end.
 Definition wl_iter (s : state) : Prop :=
-  match wl s with LIter | LAcq | LLockB _ | LWrite _ | LRefill | LSelfOut => True | _ => False end.
+  match wl s with LIter | LAcq | LLockB _ | LWrite _ | LRefill => True | _ => False end.
 Definition wl_t (s : state) : Prop :=
   match wl s with LT0 | LClose _ | LT2 | LT3 | LDone => True | _ => False end.
 Definition iterQ (n : nat) (s : state) : Prop :=
-  wl s = LSel \/ wl_t s \/ ((done s = true /\ wl_iter s) /\ wm s < n).
+  wl s = LSel \/ wl_t s \/ ((True /\ wl_iter s) /\ wm s < n).
 
 Ltac wunf := unfold iterQ, wl_t, wl_iter, wm, pcw in *.
 
 Lemma it_LIter : forall n,
-  (fun s => (done s = true /\ wl s = LIter) /\ wm s = n) ~> iterQ n.
+  (fun s => (True /\ wl s = LIter) /\ wm s = n) ~> iterQ n.
 Proof.
   intros n. apply (ensures g_wl); auto.
   - wunf; cens1_w1.
